@@ -1,0 +1,317 @@
+//! Public wrappers over crate-private layers (pager, B+tree, slotted pages). They call the private
+//! entry points unchanged and contain no logic of their own beyond marshalling values in and out.
+use crate::{
+    DBConfig, Database,
+    io::pager::{BtreeBuilder, Pager, SharedPager},
+    multithreading::coordinator::Snapshot,
+    schema::{Column, Schema},
+    storage::{
+        core::traits::{BtreeOps, Buffer},
+        page::{BtreePage, OverflowPage},
+        tuple::{Row, Tuple, TupleBuilder},
+    },
+    tree::{accessor::Accessor, bplustree::SearchResult},
+    types::{Blob, DataType, DataTypeKind, Float64, Int32, Int64, PageId, UInt64},
+};
+use std::path::Path;
+
+/// Key column kinds usable in a facade tree.
+#[derive(Clone, Copy, Debug, PartialEq, Eq)]
+pub enum VKeyKind {
+    BigUInt,
+    BigInt,
+    Int,
+    Double,
+    Text,
+}
+
+#[derive(Clone, Debug, PartialEq)]
+pub enum VKey {
+    U(u64),
+    I(i64),
+    I32(i32),
+    F(f64),
+    T(String),
+}
+
+impl VKey {
+    fn to_dt(&self) -> DataType {
+        match self {
+            VKey::U(x) => DataType::BigUInt(UInt64(*x)),
+            VKey::I(x) => DataType::BigInt(Int64(*x)),
+            VKey::I32(x) => DataType::Int(Int32(*x)),
+            VKey::F(x) => DataType::Double(Float64(*x)),
+            VKey::T(s) => DataType::Blob(Blob::from(s.as_str())),
+        }
+    }
+    fn from_dt(d: &DataType) -> Option<VKey> {
+        Some(match d {
+            DataType::BigUInt(x) => VKey::U(x.0),
+            DataType::BigInt(x) => VKey::I(x.0),
+            DataType::Int(x) => VKey::I32(x.0),
+            DataType::Double(x) => VKey::F(x.0),
+            DataType::Blob(b) => VKey::T(b.to_string_lossy_unchecked()),
+            _ => return None,
+        })
+    }
+}
+
+pub struct VPager {
+    pub(crate) pager: SharedPager,
+}
+
+#[derive(Clone, Debug)]
+pub struct VHeader {
+    pub page_size: usize,
+    pub total_pages: u64,
+    pub first_free_page: Option<u64>,
+    pub last_free_page: Option<u64>,
+    pub min_keys: usize,
+    pub num_siblings_per_side: usize,
+}
+
+#[derive(Clone, Debug)]
+pub struct VCell {
+    pub slot_offset: u16,
+    pub total_size: usize,
+    pub storage_size: usize,
+    pub left_child: Option<u64>,
+    pub is_overflow: bool,
+    pub overflow_page: Option<u64>,
+    /// the cell's own (in-page) payload bytes
+    pub data: Vec<u8>,
+}
+
+#[derive(Clone, Debug)]
+pub struct VBtreePage {
+    pub id: u64,
+    pub is_leaf: bool,
+    pub right_child: Option<u64>,
+    pub next_sibling: Option<u64>,
+    pub prev_sibling: Option<u64>,
+    pub num_slots: usize,
+    pub free_space: u32,
+    pub free_space_ptr: u32,
+    pub page_size: u32,
+    pub cells: Vec<VCell>,
+}
+
+impl VPager {
+    pub fn create(path: impl AsRef<Path>, config: DBConfig) -> Result<VPager, String> {
+        let pager = Pager::from_config(config, path).map_err(|e| e.to_string())?;
+        Ok(VPager { pager: SharedPager::from(pager) })
+    }
+
+    /// The pager of an open database (for whole-file audits at quiescent points).
+    pub fn of_database(db: &Database) -> VPager {
+        VPager { pager: db.pager().clone() }
+    }
+
+    pub fn header(&self) -> VHeader {
+        let p = self.pager.read();
+        let h = p.header_unchecked();
+        VHeader {
+            page_size: h.page_size as usize,
+            total_pages: h.total_pages,
+            first_free_page: h.first_free_page,
+            last_free_page: h.last_free_page,
+            min_keys: h.min_keys as usize,
+            num_siblings_per_side: h.num_siblings_per_side as usize,
+        }
+    }
+
+    pub fn allocate_btree_page(&self) -> Result<u64, String> {
+        self.pager.write().allocate_page::<BtreePage>().map_err(|e| e.to_string())
+    }
+
+    pub fn flush(&self) -> Result<(), String> {
+        use std::io::Write;
+        self.pager.write().flush().map_err(|e| e.to_string())
+    }
+
+    /// Typed read of a B+tree page.
+    pub fn btree_page(&self, id: u64) -> Result<VBtreePage, String> {
+        self.pager
+            .write()
+            .with_page::<BtreePage, _, _>(id as PageId, |p| {
+                let m = p.metadata();
+                let n = m.num_slots as usize;
+                let slots: Vec<u16> = p.slot_array().to_vec();
+                let mut cells = Vec::with_capacity(n);
+                for i in 0..n {
+                    let c = p.cell(i);
+                    cells.push(VCell {
+                        slot_offset: slots.get(i).copied().unwrap_or(0),
+                        total_size: c.total_size(),
+                        storage_size: c.storage_size(),
+                        left_child: c.left_child(),
+                        is_overflow: c.is_overflow(),
+                        overflow_page: c.overflow_page(),
+                        data: c.effective_data().to_vec(),
+                    });
+                }
+                VBtreePage {
+                    id: m.page_number,
+                    is_leaf: p.is_leaf(),
+                    right_child: m.right_child,
+                    next_sibling: m.next_sibling,
+                    prev_sibling: m.previous_sibling,
+                    num_slots: n,
+                    free_space: m.free_space,
+                    free_space_ptr: m.free_space_ptr,
+                    page_size: m.page_size,
+                    cells,
+                }
+            })
+            .map_err(|e| e.to_string())
+    }
+
+    /// Typed read of an overflow / free page: (next, number of payload bytes).
+    pub fn overflow_page(&self, id: u64) -> Result<(Option<u64>, u32), String> {
+        self.pager
+            .write()
+            .with_page::<OverflowPage, _, _>(id as PageId, |p| (p.metadata().next, p.metadata().num_bytes))
+            .map_err(|e| e.to_string())
+    }
+}
+
+/// (object id, name, root page, is_index) of every relation reachable from the catalog of an open database.
+pub fn catalog_roots(db: &Database, names: &[&str]) -> Result<Vec<(u64, String, u64, bool)>, String> {
+    let pager = db.pager().clone();
+    let (min_keys, sib) = {
+        let p = pager.read();
+        (p.min_keys_per_page(), p.num_siblings_per_side())
+    };
+    let builder = BtreeBuilder::new(min_keys, sib).with_pager(pager);
+    // a reader that sees everything committed so far
+    let snapshot = db.coordinator().snapshot(u64::MAX / 2).map_err(|e| e.to_string())?;
+    let mut out = vec![];
+    for n in names {
+        let id = db.catalog().bind_relation(n, &builder, &snapshot).map_err(|e| e.to_string())?;
+        let rel = db.catalog().get_relation(id, &builder, &snapshot).map_err(|e| e.to_string())?;
+        out.push((id as u64, n.to_string(), rel.root() as u64, rel.schema().is_index()));
+        for ix in rel.get_indexes() {
+            if let Ok(r2) = db.catalog().get_relation(ix.id(), &builder, &snapshot) {
+                out.push((ix.id() as u64, r2.name().to_string(), r2.root() as u64, true));
+            }
+        }
+    }
+    Ok(out)
+}
+
+pub struct VTree {
+    pager: SharedPager,
+    root: PageId,
+    schema: Schema,
+    min_keys: usize,
+    siblings: usize,
+}
+
+impl VTree {
+    /// A tree whose key is the given columns and whose value is one blob column.
+    pub fn create(pager: &VPager, keys: &[VKeyKind], min_keys: usize, siblings: usize) -> Result<VTree, String> {
+        let root = pager.allocate_btree_page()?;
+        let mut cols = vec![];
+        for (i, k) in keys.iter().enumerate() {
+            let kind = match k {
+                VKeyKind::BigUInt => DataTypeKind::BigUInt,
+                VKeyKind::BigInt => DataTypeKind::BigInt,
+                VKeyKind::Int => DataTypeKind::Int,
+                VKeyKind::Double => DataTypeKind::Double,
+                VKeyKind::Text => DataTypeKind::Blob,
+            };
+            cols.push(Column::new_with_defaults(kind, &format!("k{}", i)));
+        }
+        cols.push(Column::new_with_defaults(DataTypeKind::Blob, "data"));
+        let schema = Schema::new_table_with_num_keys(cols, keys.len());
+        Ok(VTree { pager: pager.pager.clone(), root: root as PageId, schema, min_keys, siblings })
+    }
+
+    pub fn root(&self) -> u64 {
+        self.root as u64
+    }
+
+    fn tuple(&self, key: &[VKey], payload: &[u8]) -> Result<Tuple, String> {
+        let mut vals: Vec<DataType> = key.iter().map(|k| k.to_dt()).collect();
+        vals.push(DataType::Blob(Blob::from_unencoded_slice(payload)));
+        let row = Row::new(vals.into_boxed_slice());
+        TupleBuilder::from_schema(&self.schema).build(&row, 1).map_err(|e| e.to_string())
+    }
+
+    fn tree(&self) -> crate::tree::bplustree::Btree<crate::tree::accessor::BtreeWriteAccessor> {
+        BtreeBuilder::new(self.min_keys, self.siblings).with_pager(self.pager.clone()).build_tree_mut(self.root)
+    }
+
+    pub fn insert(&self, key: &[VKey], payload: &[u8]) -> Result<(), String> {
+        let t = self.tuple(key, payload)?;
+        self.tree().insert(self.root, t, &self.schema).map_err(|e| e.to_string())
+    }
+
+    pub fn upsert(&self, key: &[VKey], payload: &[u8]) -> Result<(), String> {
+        let t = self.tuple(key, payload)?;
+        self.tree().upsert(self.root, t, &self.schema).map_err(|e| e.to_string())
+    }
+
+    pub fn update(&self, key: &[VKey], payload: &[u8]) -> Result<(), String> {
+        let t = self.tuple(key, payload)?;
+        self.tree().update(self.root, t, &self.schema).map_err(|e| e.to_string())
+    }
+
+    pub fn remove(&self, key: &[VKey]) -> Result<(), String> {
+        let t = self.tuple(key, &[])?;
+        self.tree().remove_tuple(self.root, &t, &self.schema).map_err(|e| e.to_string())
+    }
+
+    /// Payload stored under the key, if any.
+    pub fn search(&self, key: &[VKey]) -> Result<Option<Vec<u8>>, String> {
+        let t = self.tuple(key, &[])?;
+        let mut tree = self.tree();
+        let r = tree.search_tuple(&t, &self.schema).map_err(|e| e.to_string())?;
+        let out = match r {
+            SearchResult::Found(pos) => {
+                let tup = tree.get_tuple_at_unchecked(pos, &self.schema).map_err(|e| e.to_string())?;
+                let row = Row::from_bytes_checked(tup.effective_data(), &self.schema).map_err(|e| e.to_string())?;
+                match &row[row.len() - 1] {
+                    DataType::Blob(b) => Some(b.data().map_err(|e| e.to_string())?.to_vec()),
+                    _ => None,
+                }
+            }
+            SearchResult::NotFound(_) => None,
+        };
+        let _ = tree.accessor_mut().map(|a| a.clear());
+        Ok(out)
+    }
+
+    /// Forward scan over the leaf chain: (key values, payload).
+    pub fn scan(&self) -> Result<Vec<(Vec<VKey>, Vec<u8>)>, String> {
+        let mut tree = self.tree();
+        if tree.is_empty().map_err(|e| e.to_string())? {
+            return Ok(vec![]);
+        }
+        let mut out = vec![];
+        let mut it = tree.iter_forward().map_err(|e| e.to_string())?;
+        while let Some(p) = it.next() {
+            let pos = p.map_err(|e| e.to_string())?;
+            let mut rt = it.get_tree();
+            let tup = rt.get_tuple_at_unchecked(pos, &self.schema).map_err(|e| e.to_string())?;
+            let row = Row::from_bytes_checked(tup.effective_data(), &self.schema).map_err(|e| e.to_string())?;
+            let nk = self.schema.num_keys();
+            let keys: Vec<VKey> = (0..nk).filter_map(|i| VKey::from_dt(&row[i])).collect();
+            let payload = match &row[row.len() - 1] {
+                DataType::Blob(b) => b.data().map_err(|e| e.to_string())?.to_vec(),
+                _ => vec![],
+            };
+            out.push((keys, payload));
+        }
+        Ok(out)
+    }
+
+    /// Releases the whole tree (what DROP TABLE does).
+    pub fn dealloc(&self) -> Result<(), String> {
+        self.tree().dealloc().map_err(|e| e.to_string())
+    }
+
+    pub fn snapshot_default() -> Snapshot {
+        Snapshot::default()
+    }
+}
